@@ -176,6 +176,7 @@ class FnBlock:
         self.spec, self.first = [], []
         self.loops, self.closures, self.anchors = {}, {}, []
         self.loop_opts = {}
+        self.lift = None
         self.cur = None
 
     def add_line(self, line, tline):
@@ -218,6 +219,57 @@ def apply_inserts(text, origin, inserts):
     return new_text, new_origin
 
 
+def lift_block(fb, it):
+    """R5 block lifting: the `{ .. }` block that starts on the n-th line of the enclosing function matching the
+    regex is copied verbatim as the body of a generated function `fn NAME(PARAMS) -> RET`.  With skip=N the first
+    N statements of the block must be operand evaluations `let [mut] V = V.compile(prg, env, circuit);` and are
+    dropped: their results are parameters of the generated function (R5b)."""
+    text = it['text']
+    lines = text.split('\n')
+    try:
+        cre = re.compile(fb.lift['regex'])
+    except re.error as e:
+        raise WeaveError(f'template line {fb.tline}: bad regex: {e}')
+    hits = [i for i, l in enumerate(lines) if cre.search(l)]
+    if len(hits) < fb.lift['occ']:
+        raise WeaveError(f"lost anchor: {fb.path}: /{fb.lift['regex']}/ occurrence {fb.lift['occ']} not found ({len(hits)} matches)")
+    li = hits[fb.lift['occ'] - 1]
+    off = sum(len(l) + 1 for l in lines[:li])
+    line = lines[li]
+    if not line.rstrip().endswith('{'):
+        raise WeaveError(f'{fb.path}: lifted line does not open a block: {line.strip()}')
+    start = off + line.rstrip().rindex('{')
+    toks = lex(text)
+    k = next((i for i, t in enumerate(toks) if t.start == start), None)
+    if k is None:
+        raise WeaveError(f'{fb.path}: cannot locate the block to lift')
+    end = toks[match_close(toks, k)].end
+    block = text[start:end]
+    skip = int(fb.opts.get('skip', 0))
+    if skip:
+        blines = block.split('\n')
+        pat = re.compile(r'^\s*let (mut )?(\w+) = \2\.compile\(prg, env, circuit\);\s*$')
+        for j in range(1, 1 + skip):
+            if j >= len(blines) or not pat.match(blines[j]):
+                raise WeaveError(f'{fb.path}: statement {j} of the lifted block is not an operand evaluation: '
+                                 + (blines[j].strip() if j < len(blines) else '<eof>'))
+            blines[j] = ''
+        block = '\n'.join(blines)
+    params = ' '.join(' '.join(l.split()) for l, _ in fb.lift.get('params', []))
+    ret = fb.lift.get('returns')
+    name = fb.opts.get('name')
+    if not name:
+        raise WeaveError(f'template line {fb.tline}: //@lift needs name=')
+    header = f'fn {name}({params})' + (f' -> {ret} ' if ret else ' ')
+    raw = header + block
+    it2 = dict(it)
+    it2['line0'] = it['line0'] + li
+    it2['line1'] = it['line0'] + li + block.count('\n')
+    it2['text'] = raw
+    fb.path = name
+    return it2, raw
+
+
 def _body_open(toks):
     pd = 0
     for k, t in enumerate(toks):
@@ -235,6 +287,8 @@ def weave_fn(sc, fb, reach=False):
     impl_type, name = fb.path.split('::') if '::' in fb.path else (None, fb.path)
     it = extract_item(sc, fb.rel, 'fn', name, impl_type=impl_type)
     raw = it['text']
+    if fb.lift is not None:
+        it, raw = lift_block(fb, it)
     rules = fb.opts.get('rules')
     rules = rules.split(',') if rules else ['R0', 'R1', 'R7', 'R8', 'R2', 'R3', 'R9']
     counts = {}
@@ -262,6 +316,20 @@ def weave_fn(sc, fb, reach=False):
             body_first_line = text.count('\n', 0, toks[bo].end)
             inserts = []
             for (where, occ, rx, alines, tline) in fb.anchors:
+                if where == 'tail':
+                    # before the tail expression of the body (last non-blank line before the closing brace, when it
+                    # is an expression), else just before the closing brace
+                    bc_line = text.count('\n', 0, toks[match_close(toks, bo)].start)
+                    li = bc_line - 1
+                    while li > body_first_line and not lines[li].strip():
+                        li -= 1
+                    last = lines[li].strip()
+                    ins = ''.join(l + '\n' for l, _ in alines)
+                    if last.endswith(';') or last.endswith('}') or last.endswith('{') or li <= body_first_line:
+                        inserts.append((line_starts[bc_line], ins))
+                    else:
+                        inserts.append((line_starts[li], ins))
+                    continue
                 try:
                     cre = re.compile(rx)
                 except re.error as e:
@@ -271,6 +339,18 @@ def weave_fn(sc, fb, reach=False):
                     raise WeaveError(f'lost anchor: {fb.path}: /{rx}/ occurrence {occ} not found ({len(hits)} matches)')
                 li = hits[occ - 1]
                 ins = ''.join(l + '\n' for l, _ in alines)
+                if where == 'afterstmt':
+                    # advance to the line on which the statement starting at the matching line ends
+                    depth, lj = 0, li
+                    while lj < len(lines):
+                        code = lines[lj].split('//')[0]
+                        depth += sum(code.count(c) for c in '([{') - sum(code.count(c) for c in ')]}')
+                        if depth <= 0 and code.rstrip().endswith(';'):
+                            break
+                        lj += 1
+                    if lj >= len(lines):
+                        raise WeaveError(f'{fb.path}: statement at /{rx}/ has no end')
+                    li = lj
                 if where == 'before':
                     inserts.append((line_starts[li], ins))
                 else:
@@ -449,6 +529,28 @@ def process_template(tmpl_path, repo, reach=False):
                 kv['external_body'] = True
                 kv['assumed_from'] = assume_mode
             fb = FnBlock(pos[0], pos[1], kv, tl)
+        elif d == 'lift':
+            # //@lift <file> <[Impl::]fn> /regex/ <occ> name=<fn> [skip=N] [props=..]
+            if fb is not None:
+                raise WeaveError(f'template line {tl}: nested //@lift')
+            mm = re.match(r'^(\S+)\s+(\S+)\s+/(.*)/\s+(\d+)\s*(.*)$', rest)
+            if not mm:
+                raise WeaveError(f'template line {tl}: bad //@lift directive')
+            _, kv = _kv(mm.group(5).split())
+            if assume_mode:
+                kv['external_body'] = True
+                kv['assumed_from'] = assume_mode
+            fb = FnBlock(mm.group(1), mm.group(2), kv, tl)
+            fb.lift = dict(regex=mm.group(3), occ=int(mm.group(4)))
+        elif d in ('params', 'returns'):
+            if fb is None or fb.lift is None:
+                raise WeaveError(f'template line {tl}: //@{d} outside //@lift')
+            if d == 'returns':
+                fb.lift['returns'] = rest
+                fb.cur = None
+            else:
+                fb.lift['params'] = []
+                fb.cur = fb.lift['params']
         elif d in ('spec', 'first'):
             if fb is None:
                 raise WeaveError(f'template line {tl}: //@{d} outside //@fn')
@@ -464,7 +566,11 @@ def process_template(tmpl_path, repo, reach=False):
             n = int(pos[0])
             fb.closures[n] = (kv, [])
             fb.cur = fb.closures[n][1]
-        elif d in ('before', 'after'):
+        elif d == 'tail':
+            lst = []
+            fb.anchors.append(('tail', 1, '', lst, tl))
+            fb.cur = lst
+        elif d in ('before', 'after', 'afterstmt'):
             mm = re.match(r'^(\d+)\s+/(.*)/\s*$', rest)
             if not mm:
                 raise WeaveError(f'template line {tl}: bad anchor directive')
